@@ -93,7 +93,9 @@ def protocol(ctx: Ctx, rule="R-C17-PROTOCOL") -> None:
     src = ctx.cfg(f)
     ct = [n for n in src.calls() if (n.callee or "").endswith("create_task") and any(isinstance(c, ast.Call) and (dotted(c.func) or "").endswith("call_set_context")
                                                                                      for a in n.ast.args for c in ast.walk(a))]
-    ctx.check(len(ct) == 1 and ct[0].id in await_map(src), rule, f, "function run through an awaited create_task(self.call_set_context(...))", "fresh context, awaited",
+    task_names = {t.id for n in ast.walk(f.node) if isinstance(n, ast.Assign) and ct and n.value is ct[0].ast for t in n.targets if isinstance(t, ast.Name)}
+    awaited_task = ct and (ct[0].id in await_map(src) or any(isinstance(a, ast.Await) and isinstance(a.value, ast.Name) and a.value.id in task_names for a in ast.walk(f.node)))
+    ctx.check(len(ct) == 1 and bool(awaited_task), rule, f, "function run through an awaited create_task(self.call_set_context(...))", "fresh context, awaited",
               "__call__ does not run the wrapped function in an awaited child task", instance="protocol: child task awaited")
     if ct:
         inner = [c for a in ct[0].ast.args for c in ast.walk(a) if isinstance(c, ast.Call) and (dotted(c.func) or "").endswith("call_set_context")][0]
@@ -101,8 +103,9 @@ def protocol(ctx: Ctx, rule="R-C17-PROTOCOL") -> None:
             and inner.keywords[0].arg is None and dotted(inner.keywords[0].value) == "kwargs"
         ctx.check(ok, rule, f, "call_set_context(*args, **kwargs)", "arguments handed over unmodified", f"the wrapped function is invoked with {unparse(inner)[:80]}",
                   instance="protocol: arguments unmodified")
-    res_names = {t.id for n in ast.walk(f.node) if isinstance(n, ast.Assign) and isinstance(n.value, ast.Await) and isinstance(n.value.value, ast.Call)
-                 and (dotted(n.value.value.func) or "").endswith("create_task") for t in n.targets if isinstance(t, ast.Name)}
+    res_names = {t.id for n in ast.walk(f.node) if isinstance(n, ast.Assign) and isinstance(n.value, ast.Await)
+                 and ((isinstance(n.value.value, ast.Call) and (dotted(n.value.value.func) or "").endswith("create_task"))
+                      or (isinstance(n.value.value, ast.Name) and n.value.value.id in task_names)) for t in n.targets if isinstance(t, ast.Name)}
     rets = [n for n in ast.walk(f.node) if isinstance(n, ast.Return)]
     ok = bool(res_names) and all((isinstance(r.value, ast.Name) and r.value.id in res_names) or
                                  (isinstance(r.value, ast.Await) and isinstance(r.value.value, ast.Call) and dotted(r.value.value.func) == "self.fn") for r in rets)
@@ -203,10 +206,11 @@ def table(ctx: Ctx, rule="R-C17-TABLE") -> None:
     if len(loops) == 1 and isinstance(loops[0].target, ast.Name):
         v = loops[0].target.id
         for c in ast.walk(loops[0]):
-            if isinstance(c, ast.Call) and dotted(c.func) == "setattr" and len(c.args) == 3 and dotted(c.args[1]) == v and isinstance(c.args[2], ast.Call) \
-                    and dotted(c.args[2].func) == "middleware_wrapper" and isinstance(c.args[2].args[0], ast.Call) and dotted(c.args[2].args[0].func) == "getattr" \
-                    and dotted(c.args[2].args[0].args[1]) == v and dotted(c.args[0]) == dotted(c.args[2].args[0].args[0]):
-                ok = True
+            if isinstance(c, ast.Call) and dotted(c.func) == "setattr" and len(c.args) == 3 and dotted(c.args[1]) == v:
+                a2 = C.inline_locals(new, c.args[2])
+                if isinstance(a2, ast.Call) and dotted(a2.func) == "middleware_wrapper" and isinstance(a2.args[0], ast.Call) and dotted(a2.args[0].func) == "getattr" \
+                        and dotted(a2.args[0].args[1]) == v and dotted(c.args[0]) == dotted(a2.args[0].args[0]):
+                    ok = True
     ctx.check(ok, rule, new, "__new__ wraps every listed method of the new instance", "per-instance wrappers for exactly the listed methods",
               "_WrappedABC.__new__ does not wrap each method of __WRAPPED_METHODS__ on the instance with middleware_wrapper", instance="__new__ wraps listed methods")
 
@@ -243,7 +247,7 @@ def isolate(ctx: Ctx, rule="R-C17-ISOLATE") -> None:
                           node=c, instance="subscriber handler extra call")
     # kwargs filtered by the subscriber's signature; registered under its name
     ap = [n for n in ast.walk(f.node) if isinstance(n, ast.Call) and isinstance(n.func, ast.Attribute) and n.func.attr == "append" and n.args and dotted(n.args[0]) == "wrapper"]
-    ctx.check(len(ap) == 1 and "self.subscribers[name]" in unparse(ap[0].func), rule, f, "wrapper registered under the subscriber's name", "self.subscribers[name].append(wrapper)",
+    ctx.check(len(ap) == 1 and unparse(ap[0].func) in ("self.subscribers[name].append", "self.subscribers.setdefault(name, []).append"), rule, f, "wrapper registered under the subscriber's name", "self.subscribers[name].append(wrapper)",
               "add_subscriber does not register the isolating wrapper", instance="wrapper registered")
     e = ctx.func(f"{MIDDLEWARE}.emit_signal")
     gat = [n for n in ast.walk(e.node) if isinstance(n, ast.Call) and (dotted(n.func) or "").endswith("gather")]
@@ -266,7 +270,7 @@ def emitter_own(ctx: Ctx, rule="R-C17-EMITTER-OWN") -> None:
                 sites.append((fn, n, n.target))
     ctx.floor(rule, len(sites), 3, "stores of _repid_signal_emitter")
     for fn, n, t in sites:
-        obj = t.value
+        obj = C.inline_locals(fn, t.value) if isinstance(t.value, ast.Name) and t.value.id != "self" else t.value
         if fn.qualname == f"{WRAPPER}.__init__" and dotted(obj) == "self":
             ctx.ok(rule, f"emitter store in {fn.short()}", "wrapper's own initial value")
             continue
